@@ -1,8 +1,8 @@
 SPECIFICATION Spec
 CONSTANTS
-  Part = "shapes"
+  Part = "bool"
   BoolSize = "q"
-  AndMerge = "fixed"
+  AndMerge = "old"
   MaxArms = 1
-INVARIANT StrinStrict
+INVARIANT SwitchSound
 CHECK_DEADLOCK FALSE
